@@ -272,8 +272,9 @@ def numRepetitions (size maxSize : Dimension α) (gap : LP α) (template : List 
         if Num.flt innerSize firstUsed then .ok 1
         else
           let perRepetitionGapUsedSpace := Num.ofNat repDef.length * gapSize
-          -- a repetition that takes no space is floored at 1px (no division by zero)
-          let perRepetitionUsedSpace := Num.fmax (perRepetitionTrackUsedSpace + perRepetitionGapUsedSpace) 1
+          -- a repetition that takes no space is treated as 1px wide (no division by zero)
+          let perRepetitionUsedSpace0 := perRepetitionTrackUsedSpace + perRepetitionGapUsedSpace
+          let perRepetitionUsedSpace := if Num.fgt perRepetitionUsedSpace0 0 then perRepetitionUsedSpace0 else 1
           let numerator := innerSize - firstUsed
           let q := numerator / perRepetitionUsedSpace
           let fitU16 : Nat := NumCast.toU16Sat (if sizeIsMaximum then Num.floor q else Num.ceil q)
